@@ -227,6 +227,9 @@ def execute(world, op):
             out.api = 'Container.create_solution_from'
             fn = lambda: list(pp.Container.create_solution_from(source, R[op['solute']], op['conc'], solvent,
                                                                 op['q'], op.get('name')))
+        elif k == 'observe':
+            out.api = 'observe'
+            fn = lambda: []
         else:
             raise ValueError(f"unknown op {k}")
     except Exception as e:  # building the call (e.g. slicing) raised: still an outcome
